@@ -154,7 +154,26 @@ def n4(ctx):
                 continue
             n += 1
             seen.setdefault((b.file, ORD_CLASS.get(c.callee.name, c.callee.name)), []).append((root, b, c, tys))
-    for (file, cal), sites in sorted(seen.items(), key=lambda x: (str(x[0][0]), x[0][1])):
+    # reviewed totals per operation class for the whole library (moving code between files keeps the verdict)
+    tot_by = {}
+    rev_by = {}
+    for (file, cal), sites in seen.items():
+        tot_by.setdefault(cal, []).extend(sites)
+    for (file, cal), (cnt, why) in ORD_TABLE.items():
+        rev_by.setdefault(cal, [0, []])
+        rev_by[cal][0] += cnt
+        rev_by[cal][1].append("%s: %s" % (file, why))
+    for cal, sites in sorted(tot_by.items()):
+        ent = (rev_by[cal][0], "; ".join(rev_by[cal][1])) if cal in rev_by else None
+        file = "the library"
+        if True:
+            if ent is not None and len(sites) <= ent[0]:
+                ctx.ok("ord:%s" % cal, "%d reviewed use(s) of order-sensitive operations of class '%s' on slot-carrying data — %s" % (len(sites), cal, ent[1][:300]), where_of(sites[0][1], sites[0][2].bb))
+            else:
+                root, b, c, tys = sites[-1]
+                ctx.bad("ord:%s" % cal, "unreviewed name-order dependence: %d use(s) of order-sensitive operations of class '%s' on types that contain slots, %d reviewed; e.g. %s calls %s (%s). Its result can differ between two inputs that are renamings of each other" % (
+                    len(sites), cal, ent[0] if ent else 0, C.short(root.id), c.callee.name, tys[:80]), where_of(b, c.bb))
+    for (file, cal), sites in []:
         ent = ORD_TABLE.get((file, cal))
         if ent is not None and len(sites) <= ent[0]:
             ctx.ok("ord:%s:%s" % (file, cal), "%d reviewed use(s) of %s on slot-carrying data in %s — %s" % (len(sites), cal, file, ent[1]), where_of(sites[0][1], sites[0][2].bb))
@@ -180,7 +199,15 @@ def n4(ctx):
                 continue
             m += 1
             seen.setdefault(b.file, []).append((root, b, sb, inv))
-    for file, sites in sorted(seen.items(), key=lambda x: str(x[0])):
+    allsites = [x for v in seen.values() for x in v]
+    reviewed = sum(v[0] for v in ITER_TABLE.values())
+    if allsites:
+        if len(allsites) <= reviewed:
+            ctx.ok("iter", "%d reviewed name-inventing iteration(s) over sorted slot sets in the library (table: %d)" % (len(allsites), reviewed), where_of(allsites[0][1], allsites[0][2]))
+        else:
+            root, b, sb, inv = allsites[-1]
+            ctx.bad("iter", "unreviewed name-order dependence: %d loops iterate a slot set in Slot order and call Slot::%s in the body, %d reviewed; e.g. %s" % (len(allsites), "/".join(inv), reviewed, C.short(root.id)), where_of(b, sb))
+    for file, sites in []:
         ent = ITER_TABLE.get(file)
         if ent is not None and len(sites) <= ent[0]:
             ctx.ok("iter:%s" % file, "%d reviewed name-inventing iteration(s) over sorted slot sets in %s — %s" % (len(sites), file, ent[1]), where_of(sites[0][1], sites[0][2]))
